@@ -349,6 +349,78 @@ fn stress_programs() -> Vec<(String, Vec<Stmt>)> {
     out
 }
 
+/// (f) structural nests: every nest of block constructs up to `depth` around a leaf, each level
+/// followed by a statement of its own (`W { <inner> nop }`), plus self- and mutually recursive macros.
+fn nest_programs(depth: usize) -> Vec<(String, String)> {
+    const WRAPPERS: [(&str, &str, &str); 14] = [
+        ("if0", ".if 0 {", "}"),
+        ("if1", ".if 1 {", "}"),
+        ("if0-else", ".if 0 { inx } else {", "}"),
+        ("if1-else", ".if 1 { inx } else {", "}"),
+        ("if-undefined", ".if undefined_q {", "}"),
+        ("segment", ".segment \"default\" {", "}"),
+        ("braces", "{", "}"),
+        ("label-block", "lb@: {", "}"),
+        ("loop2", ".loop 2 {", "}"),
+        ("loop0", ".loop 0 {", "}"),
+        ("macro-invoked", ".macro mi@() {", "}\nmi@()"),
+        ("macro-uninvoked", ".macro mu@() {", "}"),
+        ("test", ".test \"t@\" {", "}"),
+        ("import-block", ".import * from \"other.asm\" {", "}"),
+    ];
+    const LEAVES: [(&str, &str); 3] = [("nop", "nop"), ("undefined", "lda undefined_q"), ("branch", "bne -")];
+    let mut out = vec![];
+    let n = WRAPPERS.len();
+    for d in 1..=depth {
+        for code in 0..n.pow(d as u32) {
+            let mut c = code;
+            let mut ws = vec![];
+            for _ in 0..d {
+                ws.push(c % n);
+                c /= n;
+            }
+            for (ln, leaf) in LEAVES.iter() {
+                let mut text = String::new();
+                for (i, w) in ws.iter().enumerate() {
+                    text.push_str(&WRAPPERS[*w].1.replace('@', &i.to_string()));
+                    text.push('\n');
+                }
+                text.push_str(leaf);
+                text.push('\n');
+                for (i, w) in ws.iter().enumerate().rev() {
+                    text.push_str(&WRAPPERS[*w].2.replace('@', &i.to_string()));
+                    text.push_str("\nnop\n");
+                }
+                let kind = format!("nest:{}:{}", ws.iter().map(|w| WRAPPERS[*w].0).collect::<Vec<_>>().join("/"), ln);
+                out.push((kind, text));
+            }
+        }
+    }
+    // recursive macros: k self-invocations, unguarded / guarded by a parameter that counts down /
+    // guarded by a condition that never turns false; direct and mutual; invoked once or twice
+    for k in 1..=3 {
+        let calls = |name: &str, arg: &str| (0..k).map(|_| format!("{}({})", name, arg)).collect::<Vec<_>>().join("\n");
+        for top in 1..=2 {
+            let tops = |inv: &str| (0..top).map(|_| inv.to_string()).collect::<Vec<_>>().join("\n");
+            out.push((format!("macro-recursion:self{}x{}", k, top), format!(".macro m() {{\n{}\n}}\n{}\n", calls("m", ""), tops("m()"))));
+            out.push((
+                format!("macro-recursion:countdown{}x{}", k, top),
+                format!(".macro m(p) {{\n.if p > 0 {{\nnop\n{}\n}}\n}}\n{}\n", calls("m", "p - 1"), tops("m(3)")),
+            ));
+            out.push((
+                format!("macro-recursion:always{}x{}", k, top),
+                format!(".macro m(p) {{\n.if p < 9 {{\nnop\n{}\n}}\n}}\n{}\n", calls("m", "p - 1"), tops("m(3)")),
+            ));
+            out.push((
+                format!("macro-recursion:mutual{}x{}", k, top),
+                format!(".macro a() {{\n{}\n}}\n.macro b() {{\n{}\n}}\n{}\n", calls("b", ""), calls("a", ""), tops("a()")),
+            ));
+            out.push((format!("macro-recursion:uninvoked{}x{}", k, top), format!(".macro m() {{\n{}\n}}\nnop\n", calls("m", ""))));
+        }
+    }
+    out
+}
+
 fn graph_files(n: usize, code: u64, with_missing: bool) -> Vec<(String, String)> {
     // bit (i * width + j): file i imports file j; j == n means the missing file
     let width = if with_missing { n + 1 } else { n };
@@ -445,7 +517,10 @@ fn graph_child(n: usize, code: u64, with_missing: bool) -> i32 {
 
 /// Child mode: `mvcore C06 --text <program>` – prints one JSON line.
 fn text_child(text: &str) -> i32 {
-    let files = vec![("main.asm".to_string(), text.to_string())];
+    let files = vec![
+        ("main.asm".to_string(), text.to_string()),
+        ("other.asm".to_string(), mvlib::progs::OTHER_ASM.to_string()),
+    ];
     let out = on_small_stack(files);
     let probs: Vec<Value> = out
         .problems
@@ -700,6 +775,15 @@ pub fn run(ctx: &Ctx, replay: Option<&Value>, rest: &[String]) -> i32 {
     ctx.set("stress_programs", json!(stress.len()));
     stress.par_iter().for_each(|(kind, prog)| run_isolated(ctx, "stress", kind, &program_text(prog)));
     eprintln!("[c06] stress done: {} evals, {:.1}s", ctx.evals(), ctx.wall());
+    // (f) structural nests and recursive macros
+    let nests = nest_programs(if thorough { 4 } else { 3 });
+    ctx.set("nest_programs", json!(nests.len()));
+    nests.par_iter().for_each(|(kind, text)| {
+        // (the signature keeps the family only: the nest itself is in the replay)
+        let family = if kind.starts_with("nest:") { "nest" } else { "macro-recursion" };
+        run_isolated(ctx, kind, family, text)
+    });
+    eprintln!("[c06] nests done: {} evals, {:.1}s", ctx.evals(), ctx.wall());
     // (c) import graphs, one child process per graph (a stack overflow cannot be caught)
     run_graphs(ctx, 2, true);
     run_graphs(ctx, 3, thorough);
@@ -712,7 +796,7 @@ pub fn run(ctx: &Ctx, replay: Option<&Value>, rest: &[String]) -> i32 {
     real_binary_cases(ctx);
     ctx.finish(
         "exploration",
-        "(a) every single-character edit of the production-covering corpus and (reduced) of the examples, all token strings up to length 3/4, each pushed through parse -> codegen(build) -> codegen(language-server mode) -> format -> listing(1, 8); (b) 17 directive/operator positions x 31 integer arguments incl. 0, negatives, 2^63-1 and literals of 20/40/100 digits in each radix, all pairs for / and %; names with dots/spaces; (c) all import graphs over 2 and 3 files (each file may import any subset incl. itself and a missing file; 4 files without missing file in thorough), one child process per graph; (d) convergence stress programs; (e) invalid UTF-8 / directory / missing / unreadable files through the real binary. Non-termination is decided by recurring pass-state digests and a fuel counter, never by a clock. non-trivial = distinct input that parses without diagnostics (so that code generation, formatting and listing run) or any import-graph / integer / stress case",
+        "(a) every single-character edit of the production-covering corpus and (reduced) of the examples, all token strings up to length 3/4, each pushed through parse -> codegen(build) -> codegen(language-server mode) -> format -> listing(1, 8); (b) 17 directive/operator positions x 31 integer arguments incl. 0, negatives, 2^63-1 and literals of 20/40/100 digits in each radix, all pairs for / and %; names with dots/spaces; (c) all import graphs over 2 and 3 files (each file may import any subset incl. itself and a missing file; 4 files without missing file in thorough), one child process per graph; (d) convergence stress programs; (f) every nest of depth <= 3 (quick) / 4 (thorough) over 14 block constructs (taken / untaken / undefined conditionals, segment, scopes, loops incl. 0 iterations, invoked and uninvoked macros, test, import with block) x 3 leaves, each level followed by a statement of its own, and macros that invoke themselves or each other 1-3 times (unguarded, counting down, never ending; invoked once, twice or never); (e) invalid UTF-8 / directory / missing / unreadable files through the real binary. Non-termination is decided by recurring pass-state digests and a fuel counter, never by a clock. non-trivial = distinct input that parses without diagnostics (so that code generation, formatting and listing run) or any import-graph / integer / stress case",
         true,
         &[
             "not all byte strings: single edits of a corpus, short token strings, finite menus",
